@@ -173,6 +173,32 @@ func main() {
 		}
 	}
 
+	// ---- processResponses: order of the peer filter and the response hooks
+	var hooksAfterPeerFilter bool
+	{
+		fd := findMethod(f, "processResponses")
+		var calls []string
+		ast.Inspect(fd.Body, func(n ast.Node) bool {
+			if c, ok := n.(*ast.CallExpr); ok {
+				if sel, ok := c.Fun.(*ast.SelectorExpr); ok {
+					switch sel.Sel.Name {
+					case "filterResponsesForPeer", "processExtensions", "updateLastResponses", "IngestResponse", "processTerminations":
+						calls = append(calls, sel.Sel.Name)
+					}
+				}
+			}
+			return true
+		})
+		switch strings.Join(calls, ",") {
+		case "processExtensions,filterResponsesForPeer,updateLastResponses,IngestResponse,processTerminations":
+			hooksAfterPeerFilter = false
+		case "filterResponsesForPeer,processExtensions,updateLastResponses,IngestResponse,processTerminations":
+			hooksAfterPeerFilter = true
+		default:
+			die(fd.Pos(), "processResponses: stage order not understood: %s", strings.Join(calls, ","))
+		}
+	}
+
 	// ---- cancelRequest: always sends the cancel message to the request's own peer, before cancelOnError
 	{
 		fd := findMethod(f, "cancelRequest")
@@ -238,6 +264,8 @@ func main() {
 	fmt.Fprintf(&b, "def releasePauseGuardChecksCtx : Bool := %v\n\n", pauseGuardChecksCtx)
 	b.WriteString("/-- executor.traverse re-checks the request context after SetRemoteOnline(true) and before\n    contacting the remote (`select { case <-rt.Ctx.Done(): SetRemoteOnline(false); return ContextCancelError{} default: }`) -/\n")
 	fmt.Fprintf(&b, "def goOnlineChecksCtx : Bool := %v\n\n", goOnlineChecksCtx)
+	b.WriteString("/-- processResponses runs the response hooks (processExtensions) only on the responses that passed\n    filterResponsesForPeer (request still tracked and sent to the sending peer); `false` = hooks first -/\n")
+	fmt.Fprintf(&b, "def hooksAfterPeerFilter : Bool := %v\n\n", hooksAfterPeerFilter)
 	b.WriteString("/-- the stages of terminateRequest in source order -/\n")
 	b.WriteString("def terminateStages : List String :=\n  [")
 	for i, s := range stages {
